@@ -13,12 +13,16 @@
 (* request was made still counts on (at most the property needs nothing about promptness).    *)
 EXTENDS Sequences, Integers, Json, IOUtils, TLC
 Rec == ndJsonDeserialize(IOEnv.TRACE)
-VARIABLES l, run, cfg, cur, pend, bad, nruns, taken, first
-tvars == <<l, run, cfg, cur, pend, bad, nruns, taken, first>>
+VARIABLES l, run, cfg, cur, pend, bad, nruns, taken, first, reqNow, since
+tvars == <<l, run, cfg, cur, pend, bad, nruns, taken, first, reqNow, since>>
+\* reqNow: the scheduling clock (ms) when the pending restart was requested; since: the same for the restart that
+\* was taken last (0 at the start of a run) -- a TON (IN = TRUE, PT = 5 ms) re-initialised by that restart cannot
+\* have its Q set while the clock shows less than since + 5
+PT == 5
 E == Rec[l]
 More == l <= Len(Rec)
 Zero == [gr |-> 0, gn |-> 0, pr |-> 0, pn |-> 0]
-Init == l = 1 /\ run = 0 /\ cfg = [store |-> FALSE, interval |-> -1, runner |-> ""] /\ cur = Zero /\ pend = "none" /\ bad = <<>> /\ nruns = 0 /\ taken = 0 /\ first = FALSE
+Init == l = 1 /\ run = 0 /\ cfg = [store |-> FALSE, interval |-> -1, runner |-> ""] /\ cur = Zero /\ pend = "none" /\ bad = <<>> /\ nruns = 0 /\ taken = 0 /\ first = FALSE /\ reqNow = 0 /\ since = 0
 Mark(why) == bad' = Append(bad, [run |-> run, line |-> l, why |-> why, mode |-> pend, interval |-> cfg.interval, runner |-> cfg.runner])
 
 Reset == /\ E.a = "Reset" /\ l' = l + 1 /\ run' = run + 1 /\ nruns' = nruns + 1
@@ -26,35 +30,38 @@ Reset == /\ E.a = "Reset" /\ l' = l + 1 /\ run' = run + 1 /\ nruns' = nruns + 1
          \* a run that starts on a store holding a snapshot (ResourceRestart!StopStart seen from the new process:
          \* r := disk, n := 0): the RETAIN counters start from the stored values
          /\ cur' = (IF E.bootGr >= 0 THEN [gr |-> E.bootGr, gn |-> 0, pr |-> E.bootPr, pn |-> 0] ELSE Zero)
-         /\ first' = (E.bootGr >= 0) /\ pend' = "none" /\ UNCHANGED <<bad, taken>>
+         /\ first' = (E.bootGr >= 0) /\ pend' = "none" /\ reqNow' = 0 /\ since' = 0 /\ UNCHANGED <<bad, taken>>
 Obs == [gr |-> E.gr, gn |-> E.gn, pr |-> E.pr, pn |-> E.pn]
 Plus1(v) == [gr |-> v.gr + 1, gn |-> v.gn + 1, pr |-> v.pr + 1, pn |-> v.pn + 1]
 \* ResourceRestart!Restart followed by ResourceRestart!Cycle
 AfterRestart(v, m) == IF m = "warm" THEN [gr |-> v.gr + 1, gn |-> 1, pr |-> v.pr + 1, pn |-> 1]
                       ELSE [gr |-> 1, gn |-> 1, pr |-> 1, pn |-> 1]
 IsRestartCycle == pend # "none" /\ E.pn = 1 /\ cur.pn >= 1
-Cycle == /\ E.a = "W" /\ l' = l + 1 /\ cur' = Obs
+Ahead(s) == IF E.ton /\ E.now - s < PT THEN {"timer-ran-ahead-of-the-clock-after-restart"} ELSE {}
+Cycle == /\ E.a = "W" /\ l' = l + 1 /\ cur' = Obs /\ UNCHANGED reqNow
          /\ IF IsRestartCycle
-            THEN /\ pend' = "none" /\ taken' = taken + 1
+            THEN /\ pend' = "none" /\ taken' = taken + 1 /\ since' = reqNow
                  /\ LET exp == AfterRestart(cur, pend)
                         why == (IF pend = "warm" /\ (Obs.gr # exp.gr \/ Obs.pr # exp.pr) THEN {"warm-restart-changed-retained-value"} ELSE {})
                                \cup (IF pend = "cold" /\ (Obs.gr # exp.gr \/ Obs.pr # exp.pr) THEN {"cold-restart-kept-retained-value"} ELSE {})
                                \cup (IF Obs.gn # 1 THEN {"plain-global-not-initialised"} ELSE {})
+                               \cup Ahead(reqNow)
                     IN IF why = {} THEN UNCHANGED bad ELSE Mark(why)
-            ELSE /\ UNCHANGED <<pend, taken>>
-                 /\ IF Obs = Plus1(cur) THEN UNCHANGED bad
-                    ELSE IF first THEN Mark({"start-did-not-load-the-stored-retained-values"}) ELSE Mark({"cycle-does-not-count-on"})
+            ELSE /\ UNCHANGED <<pend, taken, since>>
+                 /\ IF Obs # Plus1(cur) THEN (IF first THEN Mark({"start-did-not-load-the-stored-retained-values"}) ELSE Mark({"cycle-does-not-count-on"}))
+                    ELSE IF pend = "none" /\ Ahead(since) # {} THEN Mark(Ahead(since))
+                    ELSE UNCHANGED bad
          /\ first' = FALSE
          /\ UNCHANGED <<run, cfg, nruns>>
 \* a snapshot handed to the store holds the values of the cycle that just ended
 Store == /\ E.a = "Store" /\ l' = l + 1
          /\ (IF E.gr = cur.gr /\ E.pr = cur.pr THEN UNCHANGED bad ELSE Mark({"saved-snapshot-differs-from-current-values"}))
-         /\ UNCHANGED <<run, cfg, cur, pend, nruns, taken, first>>
-Load == E.a = "Load" /\ l' = l + 1 /\ UNCHANGED <<run, cfg, cur, pend, bad, nruns, taken, first>>
-Req == /\ E.a = "Req" /\ l' = l + 1 /\ pend' = E.mode /\ UNCHANGED <<run, cfg, cur, bad, nruns, taken, first>>
+         /\ UNCHANGED <<run, cfg, cur, pend, nruns, taken, first, reqNow, since>>
+Load == E.a = "Load" /\ l' = l + 1 /\ UNCHANGED <<run, cfg, cur, pend, bad, nruns, taken, first, reqNow, since>>
+Req == /\ E.a = "Req" /\ l' = l + 1 /\ pend' = E.mode /\ reqNow' = E.now /\ UNCHANGED <<run, cfg, cur, bad, nruns, taken, first, since>>
 End == /\ E.a = "End" /\ l' = l + 1
        /\ (IF E.faulted THEN Mark({"resource-faulted"}) ELSE IF ~E.joined THEN Mark({"join-timeout"}) ELSE UNCHANGED bad)
-       /\ UNCHANGED <<run, cfg, cur, pend, nruns, taken, first>>
+       /\ UNCHANGED <<run, cfg, cur, pend, nruns, taken, first, reqNow, since>>
 Next == More /\ (Reset \/ Cycle \/ Store \/ Load \/ Req \/ End)
 Spec == Init /\ [][Next]_tvars
 Done == l = Len(Rec) + 1 => JsonSerialize(IOEnv.OUT, [events |-> Len(Rec), runs |-> nruns, restarts |-> taken, bad |-> bad])
